@@ -53,7 +53,7 @@ def make_op(op, q=None, free=None, op_cache=None):
     from strawberryfields import ops
     key = None
     if op_cache is not None and not any(isinstance(p, dict) and "mat" not in p for p in op.get("pars", [])):
-        key = repr((op["cls"], op.get("pars"), op.get("select"), bool(op.get("dagger"))))
+        key = repr((op["cls"], op.get("pars"), op.get("select"), bool(op.get("dagger")), sorted(op.get("kw", {}).items())))
         if key in op_cache:
             return op_cache[key]
     cls = getattr(ops, op["cls"])
@@ -67,7 +67,7 @@ def make_op(op, q=None, free=None, op_cache=None):
             pars.append(v if k == 1 else k * v)
         else:
             pars.append(p)
-    kw = {}
+    kw = dict(op.get("kw", {}))
     if op.get("select") is not None:
         kw["select"] = op["select"]
     o = cls(*pars, **kw)
@@ -254,7 +254,20 @@ def dy(rng, small=False):
     return v / 4 if small else v
 
 
-def first_par(rng, cls, small):
+PI = float(np.pi)
+ANGLE_CLASSES = ("Rgate", "BSgate", "MZgate", "sMZgate", "Kgate", "CKgate")
+SPECIAL_ANGLES = [PI, -PI, PI / 2, -PI / 2, 2 * PI]
+
+
+def first_par(rng, cls, small, special=True):
+    """first parameter; in a good share of the cases an EXACT special value: 0 for every gate family (the
+    Gate contract "p[0] = 0 is the identity" is false for MZgate / sMZgate), pi, -pi, pi/2, 2pi for angles"""
+    if special and cls not in ("LossChannel", "ThermalLossChannel"):
+        u = rng.random()
+        if u < 0.10:
+            return 0.0
+        if u < 0.17 and cls in ANGLE_CLASSES:
+            return rng.choice(SPECIAL_ANGLES)
     if cls in ("LossChannel", "ThermalLossChannel"):
         return rng.choice([1.0, 1.0, 0.5, 0.25, 0.75, 0.875])
     if cls == "Vgate":
@@ -271,7 +284,9 @@ def first_par(rng, cls, small):
 
 
 def tail_pars(rng, cls, small):
-    if cls in ("Sgate", "Dgate", "BSgate", "S2gate", "MZgate", "sMZgate"):
+    if cls in ("BSgate", "MZgate", "sMZgate"):
+        return [rng.choice([0.0, 0.0, 0.5, -0.25, 1.0, PI, PI / 2, 2 * PI])]
+    if cls in ("Sgate", "Dgate", "S2gate"):
         return [rng.choice([0.0, 0.0, 0.5, -0.25, 1.0])]
     if cls == "ThermalLossChannel":
         return [rng.choice([0.5, 0.5, 1.0, 0.25])]
@@ -438,4 +453,47 @@ def gen_spec(rng, n, length, flavour="gaussian", p_sym=0.0, p_measured=0.0, matr
         ops.append(op)
         for x in regs:
             last[x] = op
+    return dict(n=n, ops=ops)
+
+
+def with_leading_preps(rng, spec, gaussian=True):
+    """make some wires START with a vacuum preparation, or with a preparation pair that merges into one
+    (Fock(1); Vac / Coherent; Vac / Vac; Squeezed): "the mode starts in the vacuum anyway" is only true on a fresh engine"""
+    lead = []
+    for m in range(spec["n"]):
+        u = rng.random()
+        if u < 0.35:
+            lead.append(dict(cls="Vacuum", regs=[m], pars=[]))
+        elif u < 0.5:
+            first = rng.choice(["Coherent", "Squeezed", "Thermal"] if gaussian else ["Fock", "Coherent"])
+            lead.append(dict(cls=first, regs=[m], pars=prep_pars(rng, first, not gaussian)))
+            lead.append(dict(cls="Vacuum", regs=[m], pars=[]))
+        elif u < 0.58:
+            lead.append(dict(cls="Vacuum", regs=[m], pars=[]))
+            lead.append(dict(cls="Squeezed", regs=[m], pars=prep_pars(rng, "Squeezed", not gaussian)))
+    # interleave the wires at random, keeping the order of the pair on each wire
+    groups = {}
+    for o in lead:
+        groups.setdefault(o["regs"][0], []).append(o)
+    fixed = []
+    while groups:
+        m = rng.choice(list(groups))
+        fixed.append(groups[m].pop(0))
+        if not groups[m]:
+            del groups[m]
+    return dict(n=spec["n"], ops=fixed + [dict(o) for o in spec["ops"]])
+
+
+def pre_segment(rng, n, gaussian=True):
+    """a program segment that leaves the register in an entangled, displaced, non-vacuum state"""
+    s = 1.0 if gaussian else 0.5
+    ops = []
+    for m in range(n):
+        ops.append(dict(cls="Squeezed", regs=[m], pars=[rng.choice([0.25, 0.375, 0.5]) * s, rng.choice([0.0, 0.5])]))
+        ops.append(dict(cls="Dgate", regs=[m], pars=[rng.choice([0.25, 0.5, 0.75]) * s, rng.choice([0.0, 0.25, 1.0])]))
+    for m in range(n - 1):
+        ops.append(dict(cls="BSgate", regs=[m, m + 1], pars=[rng.choice([0.5, 0.75, 0.375]), rng.choice([0.0, 0.25])]))
+    if n == 1 and not gaussian:
+        ops.append(dict(cls="Fock", regs=[0], pars=[1]))
+        ops.append(dict(cls="Dgate", regs=[0], pars=[0.25, 0.5]))
     return dict(n=n, ops=ops)
